@@ -38,6 +38,9 @@ func (r Res) plain() bool   { return r.St == OK && r.Alt == nil }
 type binding struct {
 	v    Value
 	pass int
+	// leak: assigned at the top level of a slot body evaluated at this place; whether a slot
+	// body is a block of its own is not settled by C04 (template, @if branch, loop, component)
+	leak bool
 }
 
 type Scope struct {
@@ -70,7 +73,7 @@ func (s *Scope) lookup(name string) (v Value, found, stale bool) {
 	for sc := s; sc != nil; sc = sc.outer {
 		if b, ok := sc.vars[name]; ok {
 			st := (sc.kind == "each" || sc.kind == "for") && b.pass != sc.pass
-			return b.v, true, st
+			return b.v, true, st || b.leak
 		}
 	}
 	return Value{}, false, false
@@ -95,7 +98,7 @@ func (s *Scope) set(name string, v Value) Res {
 	}
 	old, found, stale := s.lookup(name)
 	if found && stale {
-		return unspec("re-binding a name bound in an earlier pass")
+		return unspec("re-binding a name bound in an earlier pass or by a slot body")
 	}
 	if found && old.K != v.K {
 		return errf("re-assignment with a different type: " + name)
@@ -180,7 +183,7 @@ func (in *Interp) Eval(e *tw.Expr, sc *Scope) Res {
 			return errf("unknown identifier " + e.Str)
 		}
 		if stale {
-			return unspec("read of a name bound in an earlier pass")
+			return unspec("read of a name bound in an earlier pass or by a slot body")
 		}
 		return okv(v)
 	case tw.ENeg:
